@@ -69,6 +69,11 @@ impl Channel {
 
         (*request.headers_mut()) = headers;
 
+        #[cfg(datacake_verif)]
+        if crate::verif::in_process() {
+            return super::server::verif_dispatch(self.remote_addr, request).await;
+        }
+
         #[cfg(not(feature = "simulation"))]
         let resp = self.connection.request(request).await?;
         #[cfg(feature = "simulation")]
